@@ -271,6 +271,9 @@ def build(case, mon, outroot=None):
         for dep in deps:
             tasks[name].soft_depends_on.add(tasks[dep])
     hard, soft = DepGraph(), DepGraph()
+    groups = case.get('groups')
+    if groups:
+        return tasks, nested_hard_graph(case, tasks), flat_soft(case, tasks)
     for name in case['tasks']:
         hard.add_node(tasks[name])
         soft.add_node(tasks[name])
@@ -280,6 +283,85 @@ def build(case, mon, outroot=None):
         for dep in sorted(case.get('soft', {}).get(name, [])):
             soft.add_dependency(tasks[name], on=tasks[dep])
     return tasks, hard, soft
+
+
+def flat_soft(case, tasks):
+    from valjean.cosette.depgraph import DepGraph
+    soft = DepGraph()
+    for name in case['tasks']:
+        soft.add_node(tasks[name])
+    for name in case['tasks']:
+        for dep in sorted(case.get('soft', {}).get(name, [])):
+            soft.add_dependency(tasks[name], on=tasks[dep])
+    return soft
+
+
+def nested_hard_graph(case, tasks):
+    '''Hard graph whose nodes are sub-graphs (``case['groups']``: lists of
+    task names; ``case['ghard']``: group index -> indices of the groups it
+    depends on).  ``case['hard']`` already holds, task by task, what the
+    nesting means: the edges inside a group, plus every task of a group
+    depending on every task of the groups its group depends on.'''
+    from valjean.cosette.depgraph import DepGraph
+    outer = DepGraph()
+    subs = []
+    for members in case['groups']:
+        sub = DepGraph()
+        inside = set(members)
+        for name in members:
+            sub.add_node(tasks[name])
+        for name in members:
+            for dep in sorted(case['hard'].get(name, [])):
+                if dep in inside:
+                    sub.add_dependency(tasks[name], on=tasks[dep])
+        subs.append(sub)
+    # the order in which the sub-graphs enter the outer graph is part of the
+    # case (dependent groups may come before the groups they depend on)
+    for gidx in case.get('gorder', range(len(subs))):
+        outer.add_node(subs[gidx])
+    for gidx, deps in case.get('ghard', {}).items():
+        for dep in deps:
+            outer.add_dependency(subs[int(gidx)], on=subs[dep])
+    return outer
+
+
+def nest(rng, case):
+    '''Turn the hard edges of a generated DAG into a nested graph: tasks are
+    grouped by consecutive index ranges, edges inside a group are kept, edges
+    between groups become group-level dependencies (which means: every task
+    of the later group depends on every task of the earlier one).'''
+    names = sorted(case['tasks'], key=lambda n: int(n[1:]))
+    if len(names) < 2:
+        return case
+    ngroups = rng.randint(2, min(3, len(names)))
+    cuts = sorted(rng.sample(range(1, len(names)), ngroups - 1))
+    groups, prev = [], 0
+    for cut in cuts + [len(names)]:
+        groups.append(names[prev:cut])
+        prev = cut
+    gof = {n: i for i, grp in enumerate(groups) for n in grp}
+    ghard = {}
+    hard = {}
+    for name, deps in case['hard'].items():
+        for dep in deps:
+            if gof[dep] == gof[name]:
+                hard.setdefault(name, []).append(dep)
+            else:
+                ghard.setdefault(gof[name], set()).add(gof[dep])
+    for gidx, deps in ghard.items():
+        for name in groups[gidx]:
+            for dep in deps:
+                hard.setdefault(name, []).extend(groups[dep])
+    case['hard'] = {n: sorted(set(d)) for n, d in hard.items()}
+    # soft edges must not contradict the new hard order
+    case['soft'] = {n: [d for d in deps if d not in case['hard'].get(n, [])]
+                    for n, deps in case['soft'].items()}
+    case['groups'] = groups
+    order = list(range(len(groups)))
+    rng.shuffle(order)
+    case['gorder'] = order
+    case['ghard'] = {str(g): sorted(d) for g, d in ghard.items()}
+    return case
 
 
 def status_map(env, names):
